@@ -362,7 +362,7 @@ func runC03(r *Report, rng *rand.Rand, thorough bool) {
 		for _, fw := range Frameworks {
 			strict := s%2 == 1
 			pkgs = append(pkgs, LabPkg{Name: fmt.Sprintf("c03_s%d_%s", s, fw), Spec: spec, FW: fw,
-				Cfg: codegen.Configuration{Generate: fwGenerate(fw, codegen.GenerateOptions{Models: true, Strict: strict})}})
+				Cfg: codegen.Configuration{Generate: fwGenerate(fw, codegen.GenerateOptions{Models: true, Strict: strict, Client: true})}})
 		}
 	}
 	lab, err := BuildLab(labRoot, "c03", pkgs)
@@ -382,6 +382,12 @@ func runC03(r *Report, rng *rand.Rand, thorough bool) {
 		kind   string
 	}
 	metas := map[string]meta{}
+	type cmeta struct {
+		fw   string
+		rt   rroute
+		vals map[string]string
+	}
+	cmetas := map[string]cmeta{}
 	randVal := func() string {
 		const al = "abcdefghijklmnopqrstuvwxyz0123456789"
 		n := 1 + rng.Intn(6)
@@ -398,6 +404,31 @@ func runC03(r *Report, rng *rand.Rand, thorough bool) {
 			if !st.OK {
 				r.Violate("lab_package_broken:"+fw, fmt.Sprintf("package %s: generate error %q, compile error %q", name, st.GenerateError, trunc(st.CompileError, 600)), map[string]any{"spec": json.RawMessage(set.spec), "framework": fw})
 				continue
+			}
+			// the generated client builds the path from its arguments: every variable's value must arrive under its own
+			// name whatever the declaration order (the builder fills the template by position)
+			for _, rt := range set.rs {
+				vars := rt.vars()
+				if len(vars) < 2 || rt.method == "connect" || rt.method == "head" {
+					continue
+				}
+				names := builderParamNames(st.Code, "New"+opName(rt.op)+"Request")
+				if len(names) != len(vars) {
+					r.Violate("client_builder_signature", fmt.Sprintf("%s: New%sRequest has path arguments %v, the template has %v", name, opName(rt.op), names, vars), map[string]any{"spec": json.RawMessage(set.spec), "framework": fw})
+					continue
+				}
+				vals := map[string]string{}
+				var args []json.RawMessage
+				for _, n := range names {
+					v := randVal()
+					vals[n] = v
+					b, _ := json.Marshal(v)
+					args = append(args, b)
+				}
+				id := fmt.Sprintf("%s/client%d", name, len(scenarios))
+				scenarios = append(scenarios, map[string]any{"id": id, "pkg": name, "opts": map[string]any{"base_url": "", "short_circuit": -1, "strict_short_circuit": -1},
+					"client": map[string]any{"fn": "New" + opName(rt.op) + "Request", "args": args, "then_serve": true}})
+				cmetas[id] = cmeta{fw, rt, vals}
 			}
 			for _, base := range [][]string{nil, {"api", "v1"}} {
 				add := func(kind, method string, segs []string) {
@@ -457,6 +488,39 @@ func runC03(r *Report, rng *rand.Rand, thorough bool) {
 	}
 	for _, sc := range scenarios {
 		id := sc["id"].(string)
+		if cm, ok := cmetas[id]; ok {
+			res := results[id]
+			replay := map[string]any{"scenario": sc, "framework": cm.fw, "route": cm.rt.path(), "supplied_by_name": cm.vals}
+			r.Count("client/"+id, true)
+			r.Dist["kind=client-built-path"]++
+			if res == nil || res.Err != "" {
+				e := "no result"
+				if res != nil {
+					e = res.Err
+				}
+				if cm.fw == "stdhttp" && strings.Contains(e, "conflicts with pattern") {
+					continue // recorded with the request scenarios of the same package
+				}
+				r.Violate("client_scenario_error", id+": "+e, replay)
+				continue
+			}
+			var hs []LabEvent
+			for _, e := range res.Trace {
+				if e.Kind == "handler" {
+					hs = append(hs, e)
+				}
+			}
+			if len(hs) != 1 || hs[0].Name != opName(cm.rt.op) {
+				continue // dispatch deviations of the routers are judged on the request scenarios above
+			}
+			for _, v := range cm.rt.vars() {
+				if got := pathArg(hs[0], v); got != cm.vals[v] {
+					r.Violate("client_path_argument_under_wrong_name", fmt.Sprintf("%s %s: client argument %s = %q, the handler received %s = %q (request path %s)", cm.fw, cm.rt.path(), v, cm.vals[v], v, got, wirePath(res)), replay)
+					break
+				}
+			}
+			continue
+		}
 		m := metas[id]
 		set := sets[m.set]
 		res := results[id]
@@ -621,5 +685,27 @@ func routePaths(rs []rroute) []string {
 		out = append(out, strings.ToUpper(r.method)+" "+r.path())
 	}
 	sort.Strings(out)
+	return out
+}
+
+// builderParamNames returns the names of the path arguments of a generated request builder, in signature order
+// (everything between `server string` and an optional `params` / `body` argument).
+func builderParamNames(code, fn string) []string {
+	i := strings.Index(code, "func "+fn+"(server string")
+	if i < 0 {
+		return nil
+	}
+	rest := code[i+len("func "+fn+"(server string"):]
+	j := strings.Index(rest, ")")
+	if j < 0 {
+		return nil
+	}
+	var out []string
+	for _, part := range strings.Split(rest[:j], ",") {
+		f := strings.Fields(part)
+		if len(f) == 2 && f[0] != "params" && f[0] != "body" && f[0] != "contentType" {
+			out = append(out, f[0])
+		}
+	}
 	return out
 }
